@@ -58,6 +58,9 @@ HDR_MAP = {
 
 
 def run(shard, ctx):
+    from vmon.sim import install
+
+    install.install_fakes()  # before anything of pyscsi is imported
     walk(ctx, "after_import")
     exercise(ctx)
     walk(ctx, "after_use")
@@ -141,6 +144,50 @@ def exercise(ctx):
                      {"table": k[0], "name": k[1], "before": b, "after": a2})
 
 
+def device_side_tables(ctx):
+    """[(label, table)]: device.opcodes of real SCSIDevice / ISCSIDevice objects -- as created, after each command set was
+    assigned by hand, and after a facade was attached to a device reporting each peripheral device type"""
+    import sys
+
+    import pyscsi.pyscsi.scsi_enum_command as E
+    from pyscsi.pyscsi.scsi import SCSI
+
+    from vmon.sim import install
+    from vmon.spec import opcodes as O
+
+    out = []
+    for t in ("SCSIDevice", "ISCSIDevice"):
+        mod = sys.modules["sgio" if t == "SCSIDevice" else "iscsi"]
+        mk = (lambda: install.sgio_device()[0]) if t == "SCSIDevice" else install.iscsi_device
+        try:
+            dev = mk()
+            out.append(("spc@%s.new" % t, dev.opcodes))
+            for setname in O.SETS:
+                dev.opcodes = getattr(E, setname)
+                out.append(("%s@%s.assigned" % (setname, t), dev.opcodes))
+            dev.close()
+            for devtype, setname in ((0x00, "sbc"), (0x04, "sbc"), (0x07, "sbc"), (0x01, "ssc"), (0x05, "mmc"), (0x08, "smc"), (0x03, "spc"), (0x0D, "spc")):
+                dev = mk()
+
+                def handler(ev, devtype=devtype):
+                    buf = ev.get("eff_in") if "eff_in" in ev else ev.get("in")
+                    if ev["cdb"][0] == 0x12 and buf is not None and len(buf):
+                        buf[0] = devtype
+                    return 0, None
+
+                mod.handler = handler
+                try:
+                    SCSI(dev, 512)
+                finally:
+                    mod.handler = None
+                out.append(("%s@%s.attached_type_%02X" % (setname, t, devtype), dev.opcodes))
+                dev.close()
+        except Exception as e:  # noqa: BLE001
+            ctx.fail("C14:device_table.raises.%s" % t, "reading the command set of a %s raised %s: %s" % (t, type(e).__name__, e), {"transport": t}, exc=e)
+        mod.log = []
+    return out
+
+
 def walk(ctx, phase):
     import pyscsi.pyscsi.scsi_enum_command as E
     from pyscsi.pyscsi.scsi_command import SCSICommand
@@ -155,10 +202,17 @@ def walk(ctx, phase):
 
     seen_values = {}
     total = referenced = 0
-    for setname in O.SETS:
-        enum = getattr(E, setname)
+    # the module's tables, and the tables as devices present them (device.opcodes is what every facade method reads)
+    tables = [(setname, getattr(E, setname)) for setname in O.SETS] + device_side_tables(ctx)
+    for setname, enum in tables:
+        if "@" in setname:
+            std = getattr(E, setname.split("@")[0])
+            ctx.count("device_side_tables_walked")
+            if sorted(enum.keys) != sorted(std.keys):
+                ctx.fail("C14:device_table.names.%s" % setname, "the command set of the device has other names than %s: %s"
+                         % (setname.split("@")[0], sorted(set(enum.keys) ^ set(std.keys))[:6]), {"table": setname})
         for key in enum.keys:
-            total += 1
+            total += "@" not in setname
             oc = getattr(enum, key)
             ref = O.T10.get(key, O.CONTAINERS.get(key))
             ctx.case("op:%s:%s:%s" % (phase, setname, key), ref is not None,
@@ -167,7 +221,7 @@ def walk(ctx, phase):
             if ref is None:
                 ctx.add("unreferenced_names", key)
             else:
-                referenced += 1
+                referenced += "@" not in setname
                 if oc.value != ref:
                     ctx.fail("C14:opcode.%s.%s" % (setname, key),
                              "%s.%s is %02Xh, T10 assigns %02Xh" % (setname, key, oc.value, ref),
@@ -465,6 +519,8 @@ def finalize(merged, tier):
     }
     if c.get("opcode_entries", 0) < 200 or c.get("opcode_values_checked", 0) not in (256, 512):  # once, or also under -O
         merged["inconclusive"].append("enumeration walk incomplete: %r" % c)
+    if c.get("device_side_tables_walked", 0) < 56:
+        merged["inconclusive"].append("device-side command sets walked: %d" % c.get("device_side_tables_walked", 0))
     for k in ("exercise_attaches_ok", "exercise_constructions_ok", "exercise_facade_calls_ok"):
         if c.get(k, 0) < 20:
             merged["inconclusive"].append("usage phase did not really use the library: %s=%d" % (k, c.get(k, 0)))
